@@ -99,19 +99,27 @@ def table_cases(rep, tier, seed):
               (["r0.zip", "r3.zip"], False, False), (["r0.zip", "r1.zip"], False, False), (["r1.zip", "r0.zip"], True, False), (["r0.zip", "r1.zip"], False, True),
               (["r1.zip", "r0.zip"], False, True), (["r0.zip"], False, False), (["r0.zip", "r1.zip", "r1.zip"], True, True),
               (["r2.zip", "r0.zip"], True, False)]
+    # ... and finally a result file that was rewritten since an earlier run of this process read it: the table shows the new content
+    combos += [("rewrite", None, None), (["r0.zip", "r2.zip"], True, False), (["r0.zip", "r1.zip"], True, True)]
     import pandas as pd
+    est_label = {"r0.zip": "est0.txt", "r1.zip": "est1.txt", "r2.zip": "est2.txt", "r3.zip": "est0.txt", "runb/r0.zip": "est0.txt"}
     for n, (fs, usefn, merge) in enumerate(combos):
+        if fs == "rewrite":
+            shutil.copy(os.path.join(d, "r1.zip"), os.path.join(d, "r0.zip"))
+            stats["r0.zip"] = stats["r1.zip"]
+            est_label["r0.zip"] = est_label["r1.zip"]
+            continue
         out = os.path.join(d, "table%d.csv" % n)
         argv = fs + ["--save_table", "table%d.csv" % n, "--no_warnings", "--ignore_title"] + (["--use_filenames"] if usefn else []) + (["--merge"] if merge else [])
         r = cli.run_cli("res", argv, d)
         if merge:
-            labels = ["est0.txt" if fs[0] in ("r3.zip", "runb/r0.zip") else "est%s.txt" % fs[0][1]]       # info of the first result -> label of the merged column
+            labels = [est_label[fs[0]]]       # info of the first result -> label of the merged column
             want = {labels[0]: {k: float(np.mean([stats[f][k] for f in fs])) for k in stats[fs[0]]}}
         elif usefn:
             labels = list(fs)
             want = {f: stats[f] for f in fs}
         else:
-            lab = lambda f: "est0.txt" if f in ("r3.zip", "runb/r0.zip") else "est%s.txt" % f[1]  # noqa: E731
+            lab = lambda f: est_label[f]  # noqa: E731
             labels = [lab(f) for f in fs]
             want = {lab(f): stats[f] for f in fs}
         o = {"out": "ok", "labels": [], "cells_ok": False, "keys_ok": False}
